@@ -27,17 +27,15 @@ func (a *DropPlanner) cutLabels(e *shared.LogEntry) error {
 	if e.Labels == nil {
 		return nil
 	}
-	recountFP := false
 	for k, v := range e.Labels {
 		for i, l := range a.Labels {
 			if k == l && (a.Values[i] == "" || v == a.Values[i]) {
 				delete(e.Labels, k)
-				recountFP = true
 			}
 		}
 	}
-	if recountFP {
-		e.Fingerprint = fingerprint(e.Labels)
-	}
+	// always: an entry that keeps its labels must end in the same series as one that was reduced to them
+	// (the incoming fingerprint is ClickHouse's, not fingerprint() of the same labels)
+	e.Fingerprint = fingerprint(e.Labels)
 	return nil
 }
